@@ -605,6 +605,15 @@ def c18(run):
         ren = dict(zip(names, pool))
         renamed.append([(ren[x], ren[y]) for x, y in g])
     inputs += renamed
+    # names whose plain concatenations coincide ("1"+"12" = "11"+"2"): an edge key built without a separator confuses them
+    ambiguous = [["1", "12", "11", "2"], ["a", "ab", "aa", "b"], ["x", "x_y", "x_", "_y"], ["v1", "v11", "v", "1v11"]]
+    forced = set()
+    plain = inputs[1:len(inputs) - len(renamed)]
+    for pool in ambiguous:
+        for g in rnd.sample(plain, 120 if t else 45):
+            ren = dict(zip(names, pool))
+            forced.add(len(inputs))
+            inputs.append([(ren[x], ren[y]) for x, y in g])
     conv_items = []
     for gi, g in enumerate(inputs):
         f = os.path.join(d, "g%d.csv" % gi)
@@ -614,7 +623,7 @@ def c18(run):
             conv_items.append((g, f, und, None))
             if g:
                 for kcol in (1, 2, 3):
-                    if t or rnd.random() < 0.5:
+                    if t or gi in forced or rnd.random() < 0.5:
                         conv_items.append((g, f, und, kcol))
 
     def conv(it):
